@@ -39,6 +39,8 @@ def propConceal (first last : Nat) (ms out : List Message) : String :=
   if !(ms.zip out).all (fun p => !isRecord p.1 || p.2 == hideIf (inEnd last ms) (hideIf (inStart first) p.1)) then "fail:records" else
   if !(ms.zip out).all (fun p => !isRecord p.1 || !(uniqueNumB fnRecordPositionLat p.1 && uniqueNumB fnRecordPositionLong p.1) ||
       !(inStart first p.1 || inEnd last ms p.1) || posFree p.2) then "fail:hides" else
+  -- laps and sessions: within well-formed records only (a duplicated position field survives `RemoveFieldByNum`)
+  if !(ms.all fun m => !isRecord m || (uniqueNumB fnRecordPositionLat m && uniqueNumB fnRecordPositionLong m)) then "ok" else
   if lapsSeqB lapPH ms && !noLeakB lapPH first last ms out then "fail:lap-position-into-concealed" else
   if lapsSeqB sesPH ms && !noLeakB sesPH first last ms out then "fail:session-position-into-concealed" else "ok"
 
